@@ -76,6 +76,9 @@ def gen_cfg(rng, focus, solvers=('nm', 'powell', 'de', 'de2')):
         cfg['reducer'] = rng.choice(['sum', 'max', 'mean', 'min', 'prod'])
         cfg['reducer_arraylike'] = rng.random() < 0.5 or cfg['reducer'] == 'mean'
         if cfg['reducer'] == 'prod': cfg.pop('pen', None)      # (a penalty is added to the components before they are reduced: only reducers that commute with a shift are combined with one)
+    if focus in ('c01', 'c03') and not cfg.get('reducer') and rng.random() < 0.15:
+        cfg['extra_args'] = [rng.choice([0.0, 1.5, -2.0]), rng.choice([1.0, 2.0, 0.5])]
+        cfg['extra_args_by_keyword'] = rng.random() < 0.5
     # ---- channel: configuration through Set* methods, or through the keywords of the Step call at which it takes effect
     cfg['channel'] = rng.choice(['set', 'set', 'step_kw'])
     # ---- stop
@@ -89,6 +92,18 @@ class Run(object):
         self.cfg, self.obs, self.focus = cfg, obs, focus
         self.raw = K.make_cost(cfg['cost'])
         self.probe = K.CostProbe(self.raw)
+        if cfg.get('extra_args'):
+            # a cost of the form cost(x, *ExtraArgs): the user's function is scale*f(x) + shift and must be handed exactly the configured arguments on every call
+            raw0, want = self.raw, tuple(cfg['extra_args'])
+            run = self
+            def with_args(x, *args):
+                if args != want:
+                    run.obs.check(False, 'c01:the cost is called with the configured ExtraArgs', received=[repr(a) for a in args], configured=list(want), solver=cfg['solver'])
+                    return raw0(x)
+                return args[1] * raw0(x) + args[0]
+            self.probe.f = with_args
+            self.probe.always_args = True
+            self.raw = lambda x: want[1] * raw0(x) + want[0]
         self.seen = set()
         self.box = None              # active box per ledger
         self.cons = None             # active reference constraint per ledger
@@ -184,8 +199,13 @@ class Run(object):
         if cons and cons['when'] == 0:
             self.install_cons(s, cons['spec'], cons['inplace'], pending if bykw else None)
             self.cons_from_start = True
-        if bykw: pending['cost'] = self.probe
+        xa = cfg.get('extra_args')
+        if bykw:
+            pending['cost'] = self.probe
+            if xa: pending['ExtraArgs'] = tuple(xa)
+        elif xa: s.SetObjective(self.probe, ExtraArgs=tuple(xa)) if cfg.get('extra_args_by_keyword', True) else s.SetObjective(self.probe, tuple(xa))
         else: s.SetObjective(self.probe)
+        if xa: o.event('cost_with_extra_args')
         self.stale = False
         kw = K.step_kwargs(cfg)
         gen0 = None
